@@ -312,55 +312,71 @@ func cmdCheck(args []string) int {
 		}
 	}
 	// functions
-	type fkey struct{ pkg, fn, profile string }
 	var funcsUnderContract []map[string]interface{}
-	for _, u := range ps.Units {
-		pkg := e.pkgByShort(u.Pkg)
-		if pkg == nil {
-			fmt.Fprintln(os.Stderr, "error: unknown package", u.Pkg)
-			return 2
-		}
-		profiles := u.Profiles
-		if len(profiles) == 0 {
-			profiles = []string{"default"}
-		}
-		for _, fname := range u.Funcs {
-			decl := e.findFunc(pkg, fname)
-			if decl == nil {
-				res.translateErr = append(res.translateErr, fmt.Sprintf("%s.%s/missing: function not found in the working tree", u.Pkg, fname))
-				continue
+	generate := func() int {
+		e.obls = nil
+		e.funcFacts = nil
+		res.translateErr = nil
+		funcsUnderContract = nil
+		for _, u := range ps.Units {
+			pkg := e.pkgByShort(u.Pkg)
+			if pkg == nil {
+				fmt.Fprintln(os.Stderr, "error: unknown package", u.Pkg)
+				return 2
 			}
-			for _, prof := range profiles {
-				before := len(e.obls)
-				if err := e.verifyFunc(pkg, decl, prof); err != nil {
-					res.translateErr = append(res.translateErr, err.Error())
+			profiles := u.Profiles
+			if len(profiles) == 0 {
+				profiles = []string{"default"}
+			}
+			for _, fname := range u.Funcs {
+				decl := e.findFunc(pkg, fname)
+				if decl == nil {
+					res.translateErr = append(res.translateErr, fmt.Sprintf("%s.%s/missing: function not found in the working tree", u.Pkg, fname))
 					continue
 				}
-				src := exprTextFull(e, decl)
-				funcsUnderContract = append(funcsUnderContract, map[string]interface{}{
-					"func": u.Pkg + "." + fname, "profile": prof,
-					"file":   strings.TrimPrefix(e.fset.Position(decl.Pos()).Filename, *repo+"/"),
-					"sha256": hashText(src), "obligations_generated": len(e.obls) - before,
-				})
+				for _, prof := range profiles {
+					before := len(e.obls)
+					if err := e.verifyFunc(pkg, decl, prof); err != nil {
+						res.translateErr = append(res.translateErr, err.Error())
+						continue
+					}
+					src := exprTextFull(e, decl)
+					funcsUnderContract = append(funcsUnderContract, map[string]interface{}{
+						"func": u.Pkg + "." + fname, "profile": prof,
+						"file":   strings.TrimPrefix(e.fset.Position(decl.Pos()).Filename, *repo+"/"),
+						"sha256": hashText(src), "obligations_generated": len(e.obls) - before,
+					})
+				}
 			}
 		}
+		return 0
 	}
-	// select the obligations that count for this property
-	var selected []*Obligation
-	for _, o := range e.obls {
-		switch {
-		case hasTag(o.Tags, ps.ID):
-			selected = append(selected, o)
-		case len(o.Tags) > 0:
-			// belongs to other properties only
-		case safetyKinds[o.Kind]:
-			if ps.Safety {
+	// select the obligations that count for this property; aux: preconditions and ghost assertions that
+	// belong to other properties only - they are not counted, but if one of them does not hold on this tree its
+	// clause must not be assumed downstream (it would mask this property's obligations), see below
+	pick := func() (selected, aux []*Obligation) {
+		for _, o := range e.obls {
+			switch {
+			case hasTag(o.Tags, ps.ID):
+				selected = append(selected, o)
+			case len(o.Tags) > 0:
+				if o.Kind == "pre" || o.Kind == "ghost-assert" {
+					aux = append(aux, o)
+				}
+			case safetyKinds[o.Kind]:
+				if ps.Safety {
+					selected = append(selected, o)
+				}
+			default:
 				selected = append(selected, o)
 			}
-		default:
-			selected = append(selected, o)
 		}
+		return
 	}
+	if rc := generate(); rc != 0 {
+		return rc
+	}
+	selected, aux := pick()
 	selected = append(selected, lemmaObls...)
 	// axioms available to an obligation
 	allLemmaAx := []axiomTerm{}
@@ -387,6 +403,9 @@ func cmdCheck(args []string) int {
 	}
 	opt := solveOpts{timeout: 20, seed: seed, outDir: filepath.Join(*verif, "out", fmt.Sprintf("%s-%s-%d", ps.ID, *tier, os.Getpid())),
 		cacheDir: filepath.Join(*verif, ".cache"), useCache: true, workers: 5, replay: ps.Replay, property: ps.ID}
+	if os.Getenv("VERIF_NOCACHE") != "" {
+		opt.useCache = false
+	}
 	if *tier == "thorough" {
 		opt.timeout = 60
 		opt.useCache = false
@@ -395,7 +414,38 @@ func cmdCheck(args []string) int {
 	}
 	pruneOutDirs(filepath.Join(*verif, "out"))
 	os.RemoveAll(opt.outDir)
-	e.solveAll(selected, axiomsFor, opt)
+	e.solveAll(append(append([]*Obligation{}, selected...), aux...), axiomsFor, opt)
+	// unmasking pass: a precondition or assertion of ANOTHER property that does not hold on this tree is not
+	// reported here, but everything after it was proved under a false assumption.  Translate again without
+	// assuming those clauses and judge this property's obligations on that.
+	var unmasked []string
+	for round := 0; round < 4; round++ {
+		var newly []string
+		for _, o := range aux {
+			if o.Result != "unsat" && !e.noAssume[o.Name] {
+				newly = append(newly, o.Name)
+			}
+		}
+		if len(newly) == 0 {
+			break
+		}
+		if e.noAssume == nil {
+			e.noAssume = map[string]bool{}
+		}
+		for _, n := range newly {
+			e.noAssume[n] = true
+		}
+		unmasked = append(unmasked, newly...)
+		if rc := generate(); rc != 0 {
+			return rc
+		}
+		selected, aux = pick()
+		selected = append(selected, lemmaObls...)
+		e.solveAll(append(append([]*Obligation{}, selected...), aux...), axiomsFor, opt)
+	}
+	if len(unmasked) > 0 {
+		fmt.Printf("note: %d clause(s) of other properties do not hold on this tree and were not assumed: %s\n", len(unmasked), strings.Join(unmasked, ", "))
+	}
 	// verdicts
 	known := loadKnown(*verif)
 	var violations, knownHit []string
